@@ -185,8 +185,13 @@ template <unsigned NCapacity>
 HFSM2_CONSTEXPR(14)
 void
 BitArrayT<NCapacity>::set() noexcept {
+	constexpr uint8_t LAST_UNIT = (CAPACITY % 8) ?
+		static_cast<uint8_t>((1u << (CAPACITY % 8)) - 1) : UINT8_MAX;
+
 	for (uint8_t& unit : _storage)
 		unit = UINT8_MAX;
+
+	_storage[UNIT_COUNT - 1] = LAST_UNIT;
 }
 
 // - - - - - - - - - - - - - - - - - - - - - - - - - - - - - - - - - - - - - - -
